@@ -448,3 +448,96 @@ func TestReplay(t *testing.T) {
 		}
 	}
 }
+
+// TestSamplersConcurrent: every exported sampler, one instance shared by loggers used from several
+// goroutines at once. Which events a sampler admits is C13's subject; here only: whatever arrives is
+// one of the events produced alone, at most once, nothing panics, and the race build stays silent.
+func TestSamplersConcurrent(t *testing.T) {
+	rapid.Check(t, func(rt *rapid.T) {
+		ng := rapid.IntRange(2, 8).Draw(rt, "G")
+		ne := rapid.IntRange(1, 40).Draw(rt, "N")
+		kind := rapid.SampledFrom([]string{"random", "often", "sometimes", "rarely", "basic", "burst", "level", "burst-random"}).Draw(rt, "sampler")
+		var s zerolog.Sampler
+		switch kind {
+		case "random":
+			s = zerolog.RandomSampler(rapid.IntRange(1, 4).Draw(rt, "n"))
+		case "often":
+			s = zerolog.Often
+		case "sometimes":
+			s = zerolog.Sometimes
+		case "rarely":
+			s = zerolog.Rarely
+		case "basic":
+			s = &zerolog.BasicSampler{N: uint32(rapid.IntRange(1, 3).Draw(rt, "n"))}
+		case "burst":
+			s = &zerolog.BurstSampler{Burst: 3, Period: time.Millisecond, NextSampler: &zerolog.BasicSampler{N: 2}}
+		case "level":
+			s = zerolog.LevelSampler{InfoSampler: zerolog.RandomSampler(2), WarnSampler: &zerolog.BasicSampler{N: 2}}
+		case "burst-random":
+			s = &zerolog.BurstSampler{Burst: 2, Period: time.Millisecond, NextSampler: zerolog.RandomSampler(2)}
+		}
+		w := &checkWriter{mode: "gosched", gate: make(chan struct{})}
+		base := zerolog.New(w).Sample(s)
+		child := base.With().Str("child", "yes").Logger()
+		var wg sync.WaitGroup
+		var pmu sync.Mutex
+		var panics []string
+		want := map[string]int{}
+		for g := 0; g < ng; g++ {
+			for i := 0; i < ne; i++ {
+				lvl := []string{"info", "warn"}[(g+i)%2]
+				if (g+i)%3 == 0 {
+					want[fmt.Sprintf("{\"level\":%q,\"child\":\"yes\",\"g\":%d,\"i\":%d}\n", lvl, g, i)]++
+				} else {
+					want[fmt.Sprintf("{\"level\":%q,\"g\":%d,\"i\":%d}\n", lvl, g, i)]++
+				}
+			}
+		}
+		for g := 0; g < ng; g++ {
+			g := g
+			wg.Add(1)
+			go func() {
+				defer wg.Done()
+				defer func() {
+					if r := recover(); r != nil {
+						pmu.Lock()
+						panics = append(panics, fmt.Sprint(r))
+						pmu.Unlock()
+					}
+				}()
+				for i := 0; i < ne; i++ {
+					l := &base
+					if (g+i)%3 == 0 {
+						l = &child
+					}
+					e := l.Info()
+					if (g+i)%2 == 1 {
+						e = l.Warn()
+					}
+					e.Int("g", g).Int("i", i).Send()
+				}
+			}()
+		}
+		wg.Wait()
+		key := fmt.Sprintf("samplers %s G=%d N=%d", kind, ng, ne)
+		rec.Case([]byte(key), true, "samplers-concurrent:"+kind)
+		bad := ""
+		if len(panics) > 0 {
+			bad = fmt.Sprintf("a logging call panicked: %s", panics[0])
+		}
+		for _, b := range w.got {
+			if bad != "" {
+				break
+			}
+			if want[string(b)] == 0 {
+				bad = fmt.Sprintf("destination received %.200q, which is none of the events produced alone (or one too many of it)", b)
+			}
+			want[string(b)]--
+		}
+		if bad != "" {
+			ev.SaveReplay("C06-samplers", map[string]interface{}{"sampler": kind, "goroutines": ng, "events": ne})
+			fmt.Printf("VERIF-FAIL: [%s] %s\n", key, bad)
+			rt.Fatalf("%s", bad)
+		}
+	})
+}
